@@ -330,6 +330,25 @@ def from_poly_attached_dims(ctx, rule):
                         and not (set(lit[2]) & {'Continue', 'Ok'})]
                 if go and stop and all(not cfg.reaches(e, ab) for e in stop for ab, _ in sites):
                     mine.append(cb)
+                    # the check inside a loop over the supplied functions: passing the loop is passing the check for every element, if the
+                    # loop is left only when the iterator is exhausted (or by the failing outcome)
+                    for item in [y for x in ca[:2] for y in walk(x) if is_call(y, 'Iterator::next') and len(y) > 3 and any(z == ('param', p_) for z in walk(y))]:
+                        nb = item[3]
+                        nt = b.blocks[nb]['term'].get('target') if b.blocks[nb]['term']['k'] == 'call' else None
+                        if nt is None or not cfg.reaches(nt, nb):
+                            continue
+                        loop = set(n for n in cfg.reach_set(nt) if cfg.reaches(n, nb)) | {nb}
+                        okl = cb in loop
+                        for u in loop:
+                            for v in cfg.succ.get(u, []):
+                                if v in loop:
+                                    continue
+                                lit = edge_literal(b, R, v[1], cfg.edge_label[v]) if isinstance(v, tuple) and v[:1] == ('e',) else None
+                                exhausted = lit and lit[0] == 'is' and s(lit[1]) == s(item) and set(lit[2]) == {'None'}
+                                if not exhausted and any(cfg.reaches(v, ab) for ab, _ in sites):
+                                    okl = False
+                        if okl:
+                            mine.append(nb)
         bad = None
         for ab, at in sites:
             guards = [l for l in literals(b, R, ab) if l[0] == 'is']
